@@ -458,10 +458,19 @@ def compute_integral_ir(
             )
 
             restrictions = [i.restriction for i in initial_terminals.values()]
+            # The kernel reads quadrature_permutation whenever it uses a permuted table
+            # (e.g. a one-sided interior facet integral with a non-symmetric rule)
+            uses_permuted_table = any(
+                v["tr"].is_permuted
+                for v in F.nodes.values()
+                if v.get("tr") is not None and v["status"] != "inactive"
+            )
             if not needs_facet_permutations:
                 needs_facet_permutations = (
-                    "+" in restrictions and "-" in restrictions
-                ) or is_mixed_dim
+                    ("+" in restrictions and "-" in restrictions)
+                    or is_mixed_dim
+                    or uses_permuted_table
+                )
 
     return IntermediateIntegralIR(
         needs_facet_permutations=needs_facet_permutations,
